@@ -161,6 +161,27 @@ def one_history(res, rng, files, api):
             if exc is not None:
                 res.violation(f'c02-v3-interlude-raises-{core.exc_name(exc)}', f'{where}: {exc!r}', case_of(f))
             res.count('v3_interludes')
+    # the front end's tables may be any mutable mapping the caller likes - also one whose reads have side effects (a
+    # defaultdict, a Counter): listing the events with every column on (threads the map does not declare among them)
+    # leaves the tables equal to the file's thread map, nothing invented
+    v2 = [f for f in files if f['kind'] == 'v2' and f['records']]
+    if api == 'top' and v2 and rng.random() < 0.4:
+        import collections
+        f = v2[-1]
+        side = PyKdebugParser()
+        side.threads_pids, side.pids_names = collections.defaultdict(int), collections.defaultdict(str)
+        try:
+            list(side.formatted_kevents(io.BytesIO(f['data'])))
+        except Exception:
+            pass                      # (what the listing makes of the records is judged by C02's event comparison)
+        want = wire.threadmap_model(f['entries'])
+        res.count('listings_on_tables_whose_reads_have_side_effects')
+        if check_v2_parse is not None and (dict(side.threads_pids), dict(side.pids_names)) != (want[0], want[1]) and \
+                not (f['records'] and f['records'][0][:1] == b'\x00'):
+            extra = sorted(set(side.threads_pids) - set(want[0]))[:4]
+            res.violation('c02-tables-invented-entries', f'front end whose tables are defaultdicts, after formatted_kevents: the '
+                          f'thread table holds {len(side.threads_pids)} entries, the thread map declares {len(want[0])} (e.g. '
+                          f'{extra} are not in the map)', case_of(f))
     res.count(f'histories_{api}')
     if len(files) > 1:
         res.count('histories_with_reuse')
@@ -392,6 +413,7 @@ def run(ctx):
     res.require('interleaved_parses', 10)
     res.require('parses_through_the_version_entry_points', 10)
     res.require('table_attributes_replaced_between_parses', 10)
+    res.require('listings_on_tables_whose_reads_have_side_effects', 10)
     res.require('histories_on_one_refilled_stream_object', 10)
     res.require('threaded_parses', 6)
     res.require('deferred_parses_checked', 10)
